@@ -24,3 +24,4 @@ func vAllocMax() uint64
 func vSameArray(a, b []byte) bool
 func vSliceOff(a []byte) int
 func vLocksHeld() int
+func vWithin(inner, outer []byte) bool
